@@ -83,6 +83,11 @@ def run_case(rec, case):
         if rng.random() < 0.2:
             hcfg['boom']['message:*'] = True
         rec.count('failing_handlers')
+    if case.get('mut'):
+        # handlers that change the object they are handed, and bodies that
+        # repeat one and the same JSON message
+        hcfg = dict(hcfg, mutate_payloads=True)
+        rec.count('mutating_handlers')
     sim = scen.make_sim(srv, server_kwargs={'async_handlers': asyncm},
                         handler_cfg=hcfg,
                         policy='random', seed=rng.randrange(1 << 30),
@@ -163,7 +168,10 @@ def _run(rec, rng, sim, R, srv, asyncm, path, V, case):
     noop_expected = 0
     for it in items:
         if it[0] == 'm':
-            uid, data, wire = R.up_payload(s, it[1])
+            if case.get('mut') and it[1] == 'json':
+                data, wire = {'op': 'inc', 'n': [1]}, '4{"op":"inc","n":[1]}'
+            else:
+                uid, data, wire = R.up_payload(s, it[1])
             if on_ws and it[1] == 'binary':
                 # a driver may deliver a binary frame as bytes or as a
                 # mutable buffer; the handler gets bytes either way
@@ -343,6 +351,8 @@ def run_shard(spec):
              for k in range(spec['n'])]
     for c in cases[::2]:
         c['aio'] = 'H'
+    for c in cases[1::3]:
+        c['mut'] = True
     scen.run_cases(rec, cases, run_case)
     return rec.result()
 
